@@ -570,7 +570,14 @@ pub fn run_c06(o: &Opts) -> i32 {
         let c = *rng.pick(&["1", "3", "2.5", "1|7", "1000", "1e-3", "12"]);
         let src = format!("{} {}", coef_pos(&mut rng), a);
         let x = db.rand_name(&mut rng);
-        let text = match rng.below(18) {
+        let c2 = *rng.pick(&["2", "3", "1|4", "10", "0.5"]);
+        let text = match rng.below(23) {
+            // a term of a product that carries both a constant and a unit (group, power of a group, quotient)
+            18 => format!("{} -> {} ({} {})", src, c, c2, b),
+            19 => format!("{} {} -> ({} {})^2 / {}", src, a, c2, b, b),
+            20 => format!("{} {} -> {} ({} {})", src, a, b, c2, a),
+            21 => format!("{} / {} -> ({} / {}) ({} / {})^-1", src, x, b, c, x, c2),
+            22 => format!("{} {} -> ({} {}) ({} {})", src, a, c, b, c2, a),
             // dimensionless results converted to a bare constant or a constant times a dimensionless unit
             15 => format!("{} -> {}", coef_pos(&mut rng), c),
             16 => format!("{} {} / {} -> {}", coef_pos(&mut rng), a, b, c),
